@@ -9,6 +9,7 @@ import textwrap
 import time as _time
 import warnings
 import calendar
+import functools
 
 from . import loader, stubs
 from . import timeenv, aio
@@ -25,6 +26,8 @@ R(socket.inet_ntoa, stubs.s_inet_ntoa)
 R(textwrap.wrap, stubs.s_wrap)
 R(warnings.warn, stubs.s_warn)
 R(logging.getLogger, stubs.s_getLogger)
+R(functools.lru_cache, stubs.s_lru_cache)
+R(functools.cache, stubs.s_cache)
 R(_time, timeenv.TIME)
 R(calendar, timeenv.CALENDAR)
 R(calendar.timegm, timeenv.s_timegm)
